@@ -849,6 +849,26 @@ func checkSeedTimeBase(c *Ctx, rule string) {
 		})
 		c.Check(dep, rule, "time-base("+f.Name()+")", ins.Pos(), "derived from the start time on the "+want+" time scale (depends on that constellation's offset)",
 			"Handler field "+f.Name()+" is derived from the start time in UTC without the constellation's own offset: near the constellation's day/week boundary the state is seeded from the wrong day or week")
+		// a start-of-week field is <Sunday midnight UTC from the quantiser>.Add(<the constellation's fixed offset>):
+		// a fixed offset from UTC, not a civil-time zone whose rules change over the years
+		if strings.Contains(strings.ToLower(f.Name()), "startof") {
+			shape := false
+			if add, ok := trivialPhi(st.Val).(*ssa.Call); ok && add.Call.StaticCallee() != nil && calleeFullName(add.Call.StaticCallee()) == "(time.Time).Add" {
+				if q, ok := trivialPhi(add.Call.Args[0]).(*ssa.Call); ok {
+					if qf := q.Call.StaticCallee(); qf != nil && qf.Pkg == newFn.Pkg && len(qf.Params) == 1 && isTimeTime(qf.Params[0].Type()) {
+						off := trivialPhi(add.Call.Args[1])
+						if g := loadOfGlobal(off); g != nil && strings.Contains(strings.ToLower(g.Name()), want) && strings.Contains(strings.ToLower(g.Name()), "offset") {
+							shape = true
+						}
+						if _, isC := constInt(off); isC {
+							shape = true
+						}
+					}
+				}
+			}
+			c.Check(shape, rule, "week-start-shape("+f.Name()+")", ins.Pos(), "start of week = quantiser(...).Add(fixed "+want+" offset)",
+				"the start of the "+want+" week is not the quantised Sunday midnight UTC plus the constellation's fixed offset (e.g. it is built in a civil time zone): times are wrong wherever that zone's rules differ from the fixed offset")
+		}
 	})
 	if n == 0 {
 		c.Fail(rule, "time-base", newFn.Pos(), "unresolved", "New derives no constellation state from the start time")
